@@ -25,7 +25,7 @@ import z3
 from . import engine as E
 from . import matcher as M
 from . import xsdspec, hist
-from .histcheck import source_hash, type_elements, VERIF
+from .histcheck import source_hash, repo_hash, type_elements, VERIF
 
 
 def setup_lib():
@@ -620,8 +620,8 @@ def sweep(tier='quick', force=False, only=None):
     cdir = os.path.join(os.environ.get('VERIF_OUT') or VERIF, '.cache')
     os.makedirs(cdir, exist_ok=True)
     h = hashlib.sha256()
-    h.update(source_hash().encode())
-    for f in ('msweep.py', 'matcher.py', 'engine.py', 'instr.py'):
+    h.update(repo_hash().encode())
+    for f in ('msweep.py', 'matcher.py', 'engine.py', 'instr.py', 'xsdspec.py', 'hist.py', 'elem.py'):
         h.update(open(os.path.join(os.path.dirname(os.path.abspath(__file__)), f), 'rb').read())
     key = h.hexdigest()[:16]
     path = os.path.join(cdir, f'msweep-{tier}-{key}.json')
